@@ -194,6 +194,10 @@ def _work(args):
     from ..report import Ctx
 
     c = Ctx("C02", tier, repo, 0)
+    from .. import par as _par
+
+    if _par._SHARED_INDEX is not None and _par._SHARED_INDEX.repo_root == __import__("os").path.abspath(repo):
+        c._index = _par._SHARED_INDEX
     err = None
     try:
         _one(c, _scenarios(tier)[0][k])
@@ -215,6 +219,9 @@ def _run_scenes(ctx):
     import os
 
     scen, bounds = _scenarios(ctx.tier)
+    from .. import par as _par
+
+    _par._SHARED_INDEX = ctx.index
     first_err = None
     done = 0
     lo = 0
